@@ -45,7 +45,7 @@ def tables(thorough):
             else: coeffs = [SPECIAL[(i * 3 + si) % len(SPECIAL)] if i % 2 == 0 else Fr(i, 8) for i in range(n)]
             coeffs = [c if isinstance(c, str) else Fr(float_round(c)) for c in coeffs]
             ext = [(knots[d][orders[d]], knots[d][naxes[d]]) for d in range(nd)] if variant == "plain" else [(Fr(-7 - d), Fr(d * d, 3) + 100) for d in range(nd)]
-            aux = [[], [("GEOMETRY", "2")], [("A", ""), ("LONGER KEY NAME", "some text"), ("LEVEL", "3.5e7"), ("NAME8CHR", "exactly8"), ("PADDED", "trailing  "), ("Z9", "x" * 60), ("QUOTED", "it's"), ("QUOTE2", "IceCube's DOM 'A' v2"), ("QUOTE3", "'"), ("QUOTE4", "ends with a quote'"), ("LEADING", "  two leading blanks"), ("FULL", "y" * 68)]][(si + (variant == "special")) % 3]
+            aux = [[], [("GEOMETRY", "2")], [("A", ""), ("LONGER KEY NAME", "some text"), ("LEVEL", "3.5e7"), ("NAME8CHR", "exactly8"), ("PADDED", "trailing  "), ("Z9", "x" * 60), ("QUOTED", "it's"), ("QUOTE2", "IceCube's DOM 'A' v2"), ("QUOTE3", "'"), ("QUOTE4", "ends with a quote'"), ("QUOTE5", "q" * 60 + "'" + "r" * 6), ("LEADING", "  two leading blanks"), ("FULL", "y" * 68)]][(si + (variant == "special")) % 3]
             if thorough and variant == "special": aux = aux + [("K%02d" % k, "v%d" % k) for k in range(40)]
             periods = [None, [0.0] * nd, [0.0 if d else 6.25 for d in range(nd)]][(si + (variant == "special")) % 3]
             out.append(("table%d/%s orders=%s nknots=%s naux=%d" % (si, variant, list(orders), list(nks), len(aux)), dict(orders=list(orders), knots=knots, coeffs=coeffs, extents=ext, periods=periods, aux=aux)))
